@@ -705,7 +705,8 @@ ParkedOK == parked >= 0 /\ (W = 1 => parked = 0)
 \* finalizer: at most once, after the last reference was dropped AND the pending work finished, with the context of that time
 AllReleased == HeldTotal = 0 /\ ~childAlive
 FinalizerOK == /\ Len(finRuns) <= 1 /\ specRuns <= 1
-               /\ (finRuns # <<>> \/ specRuns > 0) => (disposed /\ AllReleased /\ Submitted \subseteq done /\ running = {})
+               /\ (finRuns # <<>> \/ specRuns > 0) => (Disposing /\ AllReleased /\ Submitted \subseteq done /\ running = {})
+               /\ finRuns # <<>> => disposed         \* the destructors are submitted just before, the finalizer just after the dealloc
                /\ finRuns # <<>> => finRuns[1] = ctx
 \* ... exactly once, and the memory is released: checked when everything is quiet (no leak)
 NoLeak == (Quiescent /\ AllSubmitted /\ AllReleased) =>
